@@ -38,12 +38,12 @@ func (p *parser) parseHost(u *Url, parser *parser, input string, isNotSpecial bo
 		return "", nil
 	}
 	if input[0] == '[' {
-		if !strings.HasSuffix(input, "]") {
+		if len(input) < 2 || !strings.HasSuffix(input, "]") {
 			if err := p.handleError(u, errors.IPv6Unclosed, true); err != nil {
 				return "", err
 			}
 		}
-		input = strings.Trim(input, "[]")
+		input = input[1 : len(input)-1]
 		return p.parseIPv6(u, newInputString(input))
 	}
 	if isNotSpecial {
